@@ -47,17 +47,18 @@ pub fn run(ctx: &Ctx) -> i32 {
     // 6 every layer at opacity 255 with cels fully inside the canvas and reduced cel opacity,
     // 7 / 8 the lowest / highest layer hidden and a non-zero z-index in every cel chunk,
     // 9 / 10 an indexed sprite (transparent index in use) whose lowest layer is a hidden / visible background layer,
-    // 11 / 12 layer flag words with the reference, background, locked ... bits set (with / without the visible bit)
+    // 11 / 12 layer flag words with the reference, background, locked ... bits set (with / without the visible bit),
+    // 13 the middle layer hidden and every cel of the later frames a link to frame 0 (where frame 0 has a cel on that layer)
     let mut cases = Vec::new();
     for (si, (nf, nl)) in shapes.iter().enumerate() {
         for m in 0..(1u32 << (nf * nl)) {
-            for variant in 0..13 {
+            for variant in 0..14 {
                 cases.push((si, m, variant));
             }
         }
     }
     let fam = "cells";
-    ctx.family(fam, cases.len() as u64, "shapes (frames,layers) in {(2,3),(3,2),(1,4),(4,1)} (thorough: + (3,3),(2,5),(5,2)): every subset of the F*L cells present, each with unique offset, pixels, opacity and user-data record; variants: plain / one linked cell / a tilemap layer / a hidden layer / a non-Normal blend mode / a hidden group parent / all layers at opacity 255 with in-canvas cels of reduced cel opacity / a non-zero z-index field in every cel chunk with the lowest or the highest layer hidden / an indexed sprite with the transparent index in use whose lowest layer is a hidden or a visible background layer / layer flag words carrying the reference, background, locked, continuous and collapsed bits. Three routes must agree; single-visible-layer frames must equal the cel image; tilemap image must equal its cel image (checked directly on the library's outputs and against the model)", true);
+    ctx.family(fam, cases.len() as u64, "shapes (frames,layers) in {(2,3),(3,2),(1,4),(4,1)} (thorough: + (3,3),(2,5),(5,2)): every subset of the F*L cells present, each with unique offset, pixels, opacity and user-data record; variants: plain / one linked cell / a tilemap layer / a hidden layer / a non-Normal blend mode / a hidden group parent / all layers at opacity 255 with in-canvas cels of reduced cel opacity / a non-zero z-index field in every cel chunk with the lowest or the highest layer hidden / an indexed sprite with the transparent index in use whose lowest layer is a hidden or a visible background layer / layer flag words carrying the reference, background, locked, continuous and collapsed bits / the middle layer hidden and the later frames made of links to frame 0. Three routes must agree; single-visible-layer frames must equal the cel image; tilemap image must equal its cel image (checked directly on the library's outputs and against the model)", true);
     let fmt = Fmt::Rgba;
     cases.par_iter().for_each(|(si, m, variant)| {
         let case = || format!("shape={:?} present={:b} variant={}", shapes[*si], m, variant);
@@ -102,6 +103,9 @@ pub fn run(ctx: &Ctx) -> i32 {
             if *variant == 12 {
                 ly.flags = if l % 2 == 0 { 0x40 | 2 } else { 1 | 0x40 };
             }
+            if *variant == 13 && l == (nl - 1) / 2 {
+                ly.flags = 2;
+            }
             if *variant == 10 && l == 0 {
                 ly.flags = 1 | 8;
             }
@@ -126,6 +130,9 @@ pub fn run(ctx: &Ctx) -> i32 {
                     tm_cel(li, x * 2, y, op, 2, 2, vec![1 + uid % 3, 2, 3, uid % 4])
                 } else if *variant == 1 && first_real.map_or(false, |(rf, rl)| rl == l && rf != fr) {
                     link_cel(li, x, y, op, first_real.unwrap().0 as u16)
+                } else if *variant == 13 && fr > 0 && m >> l & 1 == 1 {
+                    // every cel of a later frame is a link to frame 0 wherever frame 0 has a cel on that layer
+                    link_cel(li, x, y, op, 0)
                 } else {
                     if first_real.is_none() && *variant == 1 {
                         first_real = Some((fr, l));
